@@ -164,7 +164,9 @@ JudgeSummary(e, P) ==
                     \cup Flag((HasNan(ft.vo) /\ ft.dropna) =>
                                  \E r \in frows : r[2] = OutOf(P.dtype, ft, NanGroup(ft.vo)) /\ NAN \in GLRng(r[3]),
                               "C16_summary_missing_values")
-                    \cup Flag(\A r \in frows : \E ldr \in GLLeaders(ft.vo) : r[2] = OutOf(P.dtype, ft, ldr), "C16_summary_unknown_label")
+                    \cup Flag(\A r \in frows : \E ldr \in GLLeaders(ft.vo) :
+                                  r[2] = OutOf(P.dtype, ft, ldr) \/ r[2] = LabelOf(P.dtype, ft, ldr),   \* (a restored missing output is listed under its label)
+                              "C16_summary_unknown_label")
                ELSE \* one row per fitted group (a missing-value modality that is not dropped may be listed or not)
                     LET L == {LabelOf(P.dtype, ft, ldr) : ldr \in GLLeaders(ft.vo)}
                         R == {r[2] : r \in frows}
